@@ -226,19 +226,31 @@ def ExactAttrs (close : Val → Val → Bool) (m t : Mol) : Prop :=
 instance (close : Val → Val → Bool) (m t : Mol) : Decidable (ExactAttrs close m t) := by
   unfold ExactAttrs; infer_instance
 
-/-- what the ITP writer reads of a molecule: `nrexcl`, the atoms in writing order (without the
-attributes ignored by the comparison: position, chain, ...) and the non-empty interaction lists -/
-def itpView (m : Mol) : Option Int × List Atom × List (String × List Inter) :=
-  (m.nrexcl, sortedNodes (m.nodes.map strip), relevantInters m)
+/-- what the ITP writer reads of a molecule: `nrexcl`, the meta entries it prints (`define`,
+`pre_section_lines`, `post_section_lines`), the atoms in writing order (without the attributes
+ignored by the comparison: position, chain, ...) and the non-empty interaction lists -/
+structure ItpView where
+  nrexcl : Option Int
+  metaEntries : List (Option MetaDict)
+  atoms : List Atom
+  inters : List (String × List Inter)
+  deriving DecidableEq
+
+def itpView (m : Mol) : ItpView :=
+  { nrexcl := m.nrexcl, metaEntries := itpMetaKeys.map (metaGet m),
+    atoms := sortedNodes (m.nodes.map strip), inters := relevantInters m }
 
 /-- Molecules that share a molecule type are written identically (under ExactAttrs). -/
 theorem share_implies_same_itp (close : Val → Val → Bool) (m t : Mol) (hex : ExactAttrs close m t)
     (h : shareMolType close m t = true) : itpView m = itpView t ∧ writeAtoms m = writeAtoms t := by
-  simp only [shareMolType, Bool.and_eq_true, beq_iff_eq] at h
-  obtain ⟨⟨⟨⟨h1, _⟩, h3⟩, _⟩, h5⟩ := h
+  simp only [shareMolType, Bool.and_eq_true, beq_iff_eq, List.all_eq_true] at h
+  obtain ⟨⟨⟨⟨⟨h1, _⟩, hmeta⟩, h3⟩, _⟩, h5⟩ := h
   have hn := nodesSame_eq m.nodes t.nodes hex h3
+  have hsub : ∀ k ∈ itpMetaKeys, k ∈ writtenMeta := by decide
+  have hm : itpMetaKeys.map (metaGet m) = itpMetaKeys.map (metaGet t) :=
+    List.map_congr_left (fun k hk => hmeta k (hsub k hk))
   constructor
-  · simp only [itpView, h1, hn, h5]
+  · simp only [itpView, h1, hm, hn, h5]
   · rw [writeAtoms_strip, writeAtoms_strip, hn]
 
 theorem attrsSame_refl (close : Val → Val → Bool) (hc : ∀ v, isNumeric v = true → close v v = true)
@@ -375,18 +387,18 @@ private def at1 (key : Int) (name : String) (resid : Int) (charge : Int) (aid : 
        ("resid", Val.int resid), ("resname", Val.str "ALA")] }
 
 private def molA : Mol :=
-  { nrexcl := some 1, ff := none, edges := [(0, 1)], inters := [("bonds", [⟨[0, 1], "p"⟩])],
+  { nrexcl := some 1, ff := none, metadata := [], edges := [(0, 1)], inters := [("bonds", [⟨[0, 1], "p"⟩])],
     nodes := [at1 0 "A" 1 500000000000 (some 3), at1 1 "B" 1 0 (some 1), at1 2 "C" 2 0 (some 2)] }
 /-- same as `molA` but another chain (ignored attribute) -/
 private def molA' : Mol :=
   { molA with nodes := molA.nodes.map fun a => { a with attrs := a.attrs.map fun p => if p.1 == "chain" then (p.1, Val.str "B") else p } }
 private def molB : Mol :=
-  { nrexcl := some 1, ff := none, edges := [], inters := [], nodes := [at1 0 "X" 1 0 none] }
+  { nrexcl := some 1, ff := none, metadata := [], edges := [], inters := [], nodes := [at1 0 "X" 1 0 none] }
 /-- `molA` with one charge 1e-9 higher: within the tolerance of `numpy.isclose` -/
 private def molAclose : Mol :=
   { molA with nodes := [at1 0 "A" 1 500000001000 (some 3), at1 1 "B" 1 0 (some 1), at1 2 "C" 2 0 (some 2)] }
 private def ion (resid : Int) : Mol :=
-  { nrexcl := some 1, ff := none, edges := [], inters := [], nodes := [at1 0 "NA" resid 0 none] }
+  { nrexcl := some 1, ff := none, metadata := [], edges := [], inters := [], nodes := [at1 0 "NA" resid 0 none] }
 
 /-- atom ids 3, 1, 2 on nodes A, B, C: every writer lists B, C, A (input of finding F-C03-3) -/
 example : (writeAtoms molA).map (·.atomname) = [Val.str "B", Val.str "C", Val.str "A"] := by decide
@@ -410,6 +422,15 @@ example : shareMolType npClose (ion 100001) (ion 100000) = true
     ∧ ¬ ExactAttrs npClose (ion 100001) (ion 100000) := by decide
 example : shareMolType npClose molAclose molA = true ∧ itpView molAclose ≠ itpView molA
     ∧ ¬ ExactAttrs npClose molAclose molA := by decide
+/-- metadata that the ITP shows separates molecule types (input of the defect fixed by c19a3ae:
+a position-restraint define and a line after the atoms on one of two otherwise equal molecules);
+metadata the ITP does not show is not compared -/
+private def molBposres : Mol :=
+  { molB with metadata := [("define", [("POSRES_FC", [Val.int 1000])]), ("post_section_lines", [("atoms", [Val.str "; a"])])] }
+private def molBnote : Mol := { molB with metadata := [("verif_note", [("x", [Val.str "y"])])] }
+example : shareMolType npClose molBposres molB = false ∧ itpView molBposres ≠ itpView molB
+    ∧ shareMolType npClose molBnote molB = true ∧ itpView molBnote = itpView molB
+    ∧ nameMolTypes (shareMolType npClose) true [molBposres, molB, molBnote] = [0, 1, 1] := by decide
 /-- with the exact comparison the hypothesis is empty -/
 example (m t : Mol) : ExactAttrs exactClose m t := by
   intro x _ y _ h; simpa [exactClose] using h
